@@ -116,6 +116,12 @@ pub fn run_c09(out: &mut Out, rng: &mut Rng, tier: Tier) -> String {
     single_calls::<Tok>(out, sb, tb);
     single_calls::<u32>(out, 2, 3);
     single_calls::<()>(out, 2, 3);
+    // zero-sized elements with drop glue and a counting Default: resize must still drop / create them
+    single_calls::<Zd>(out, 2, 3);
+    let z = snapshot();
+    if z.zst_live != 0 || z.zst_overdrops != 0 {
+        out.oracle_fail(&format!("zero-sized elements with drop glue: created - dropped = {} after all matrices were dropped, drops beyond creations = {}", z.zst_live, z.zst_overdrops));
+    }
     histories(out, rng, n, len);
     let s = snapshot();
     if s.double_drops > 0 || s.live != 0 {
